@@ -12,6 +12,7 @@ package mechsim
 import (
 	"context"
 	"crypto/sha256"
+	"crypto/x509"
 	"encoding/base64"
 	"encoding/hex"
 	"encoding/json"
@@ -20,6 +21,8 @@ import (
 	"io"
 	"net/http"
 	"net/url"
+	"os"
+	"path/filepath"
 	"reflect"
 	"sort"
 	"strings"
@@ -127,6 +130,16 @@ mechanisms:
           - header: X-Jwt
         assertions:
           issuers: [ "iss1" ]
+    - id: jwt_ts
+      type: jwt
+      config:
+        jwks_endpoint:
+          url: http://jwks/keys-x5c
+        jwt_source:
+          - header: X-Jwt
+        assertions:
+          issuers: [ "iss1" ]
+        trust_store: ` + c17TrustStore() + `
     - id: jwt_md
       type: jwt
       config:
@@ -235,6 +248,8 @@ var specs = []mechSpec{
 	{"authenticator", "jwt", []map[string]any{
 		{"assertions": map[string]any{"issuers": []any{"iss2"}}}, {"assertions": map[string]any{"audience": []any{"svc-x"}}},
 		{"assertions": map[string]any{"allowed_algorithms": []any{"ES256"}}}, {"cache_ttl": "7s"}, {"allow_fallback_on_error": true}, {"cache_ttl": "2h"}}},
+	// the published key carries a certificate issued by a private CA, which only the configured trust store knows
+	{"authenticator", "jwt_ts", []map[string]any{{"assertions": map[string]any{"audience": []any{"svc-a"}}}, {"cache_ttl": "7s"}, {"allow_fallback_on_error": true}}},
 	{"authenticator", "jwt_md", []map[string]any{{"assertions": map[string]any{"issuers": []any{"iss2"}}}, {"assertions": map[string]any{"audience": []any{"svc-x"}}}, {"cache_ttl": "7s"}}},
 	{"authorizer", "allow", nil},
 	{"authorizer", "deny", nil},
@@ -307,7 +322,21 @@ func (c *simCtx) Outputs() map[string]any                { return c.outputs }
 
 var (
 	signKey = simkeys.FixtureKey("ec384")
+	c17Leaf *x509.Certificate
 )
+
+// c17TrustStore writes the certificate of a private CA (which certifies signKey) into a file of this process and
+// returns its path.
+func c17TrustStore() string {
+	caKey := simkeys.FixtureKey("ec256ca")
+	ca, caDER := simkeys.MintCA(caKey, time.Now().Add(1000*time.Hour))
+	c17Leaf, _ = simkeys.MintLeaf(ca, caKey, simkeys.FixtureKey("ec384"), time.Now().Add(500*time.Hour), 3)
+	path := filepath.Join(os.TempDir(), fmt.Sprintf("verif-c17-ca-%d.pem", os.Getpid()))
+	if err := os.WriteFile(path, simkeys.PEMCert(caDER), 0o600); err != nil {
+		panic(err)
+	}
+	return path
+}
 
 func probeHeaders(iss string) map[string]string {
 	now := time.Now().Unix()
@@ -327,7 +356,17 @@ func install(n *simnet.Net) {
 		w.Header().Set("Content-Type", "application/json")
 		json.NewEncoder(w).Encode(v)
 	}
-	n.HandleFunc("jwks", func(w http.ResponseWriter, r *http.Request) { w.Header().Set("Content-Type", "application/json"); w.Write(jwks) })
+	certified := pub
+	certified.Certificates = []*x509.Certificate{c17Leaf}
+	jwksX5C := simkeys.JWKSJSON(certified)
+	n.HandleFunc("jwks", func(w http.ResponseWriter, r *http.Request) {
+		w.Header().Set("Content-Type", "application/json")
+		if r.URL.Path == "/keys-x5c" {
+			w.Write(jwksX5C)
+			return
+		}
+		w.Write(jwks)
+	})
 	n.HandleFunc("meta", func(w http.ResponseWriter, r *http.Request) {
 		iss := "iss1"
 		if parts := strings.Split(strings.Trim(r.URL.Path, "/"), "/"); len(parts) > 1 && strings.HasPrefix(parts[0], "iss") {
@@ -867,6 +906,12 @@ func trunc(s string) string {
 		return s[:260] + "..."
 	}
 	return s
+}
+
+func TestMain(m *testing.M) {
+	code := m.Run()
+	os.Remove(filepath.Join(os.TempDir(), fmt.Sprintf("verif-c17-ca-%d.pem", os.Getpid())))
+	os.Exit(code)
 }
 
 func TestVerifC17(t *testing.T) {
